@@ -19,7 +19,8 @@ var BoundaryInts = []int64{0, 1, -1, 2, 3, 7, 10, 24, 255, 256, 65533, 65534, 65
 var BoundaryFloats = []float64{0, 0.5, -0.5, 1, 1.5, 2.5, 3.0, -2.0, 65534.0, 65535.5, 0.1, 1e15, 1e-7, 123456.789}
 
 // BoundaryStrings are the strings every string generator is biased to.
-var BoundaryStrings = []string{"", "a", "b", "A", "abc", "ABC", "10", "9", " a ", "é", "狐犬", "a\nb", "true", "1.5", "a b c", "Steve", "x/y", `q"r`, `b\s`}
+var BoundaryStrings = []string{"", "a", "b", "A", "abc", "ABC", "10", "9", " a ", "é", "狐犬", "a\nb", "true", "1.5", "a b c", "Steve", "x/y", `q"r`, `b\s`,
+	"x\n ab", "ab \ny", "a\r\nb", "\n a", " b\n", "a\n\n b ", "\ta\n\tb", "caf\ufffd au", "\ufffd"}
 
 // Uniform draws an integer in [0, n) with (nearly) equal probabilities.
 // rapid's own integer generators are deliberately biased towards small
@@ -80,7 +81,7 @@ func Float(t *rapid.T, label string) float64 {
 	return f
 }
 
-var runePool = []rune("abcxyzABC019 _-.,é狐犬ß\n\t")
+var runePool = []rune("abcxyzABC019 _-.,é狐犬ß\n\t\r\ufffd  ")
 
 // Text draws a string free of NUL and of invalid UTF-8.
 func Text(t *rapid.T, label string) string {
@@ -98,7 +99,7 @@ func Word(t *rapid.T, label string) string {
 }
 
 // SafeRegexps are valid patterns (spelled as full patterns, flags included).
-var SafeRegexps = []string{"a", "^a", "b+", "abc$", "(?i)^a", "[0-9]+", "(?i)steve", "a|b", "^$", "x.y", `\.`, "(?im)^b", "狐"}
+var SafeRegexps = []string{"a", "^a", "^b", "a$", "b$", "^ab$", "a.", "b+", "abc$", "(?i)^a", "[0-9]+", "(?i)steve", "a|b", "^$", "x.y", `\.`, "(?im)^b", "狐"}
 
 // RegexpPat draws a regexp pattern (mostly valid).
 func RegexpPat(t *rapid.T, label string) string {
@@ -135,6 +136,10 @@ func HashKey(t *rapid.T, label string) lang.Value {
 		return lang.Str(rapid.SampledFrom([]string{"a", "b", "c", "Name", "k1", "k2", "1", "2.5", "é", "è", "ü", "д", "ж", "世", "中", "ab", "ba", "", "a ", "A"}).Draw(t, label))
 	case 3, 4:
 		return lang.Int(rapid.Int64Range(-2, 6).Draw(t, label))
+	}
+	if rapid.IntRange(0, 3).Draw(t, label+"_near") == 0 {
+		// floats that only differ beyond single precision
+		return lang.Float(rapid.SampledFrom([]float64{0.3, 0.30000000000000004, 0.1 + 0.2, 16777216.0, 16777217.0, 1.0000001, 1.00000011, 2.5, 2.5000000001, 1e15, 1e15 + 1}).Draw(t, label))
 	}
 	return lang.Float(float64(rapid.Int64Range(-4, 12).Draw(t, label)) / 2)
 }
